@@ -21,28 +21,46 @@ import (
 // the sync marker), its cache equals the targets' final state. Timing decides which windows are
 // hit, never the verdict.
 
-// slowType is the real gNMI client implementation on a connection with static 64KB HTTP/2
-// flow-control windows (no BDP growth), so that a handler that blocks stops the collector's
-// sender after a bounded amount of data.
-const slowType = "gnmi_static_window"
+// Two client types around the real gNMI client implementation (client/gnmi), differing from the
+// registered "gnmi" type only in how the connection is dialled:
+// slowType has static 64KB HTTP/2 flow-control windows (no BDP growth), so that a handler that
+// blocks stops the collector's sender after a bounded amount of data; plainType has the default
+// windows. Both tell the case's hub when the connection stands (the subscribe request is what the
+// library sends next), which lets a script aim an event at the instant a subscription registers.
+const (
+	slowType  = "gnmi_static_window"
+	plainType = "gnmi_default_window"
+)
 
-func init() {
-	client.Register(slowType, func(ctx context.Context, d client.Destination) (client.Impl, error) {
+type obsKey struct{}
+
+func dialer(static bool) client.InitImpl {
+	return func(ctx context.Context, d client.Destination) (client.Impl, error) {
 		dctx, cancel := context.WithTimeout(ctx, d.Timeout)
 		defer cancel()
-		conn, err := grpc.DialContext(dctx, d.Addrs[0], grpc.WithBlock(),
-			grpc.WithDefaultCallOptions(grpc.MaxCallRecvMsgSize(math.MaxInt32)),
-			grpc.WithTransportCredentials(credentials.NewTLS(d.TLS)),
-			grpc.WithInitialWindowSize(65535), grpc.WithInitialConnWindowSize(65535))
+		opts := []grpc.DialOption{grpc.WithBlock(), grpc.WithDefaultCallOptions(grpc.MaxCallRecvMsgSize(math.MaxInt32)), grpc.WithTransportCredentials(credentials.NewTLS(d.TLS))}
+		if static {
+			opts = append(opts, grpc.WithInitialWindowSize(65535), grpc.WithInitialConnWindowSize(65535))
+		}
+		conn, err := grpc.DialContext(dctx, d.Addrs[0], opts...)
 		if err != nil {
 			return nil, fmt.Errorf("Dialer(%s, %v): %v", d.Addrs[0], d.Timeout, err)
 		}
+		if o, ok := ctx.Value(obsKey{}).(*obsState); ok {
+			o.h.change(func() { o.dialed = true })
+		}
 		return gclient.NewFromConn(ctx, conn, d)
-	})
+	}
+}
+
+func init() {
+	client.Register(slowType, dialer(true))
+	client.Register(plainType, dialer(false))
 }
 
 // obsState is one running observer; everything but c, spec and the constants is guarded by hub.mu.
 type obsState struct {
+	h       *hub
 	spec    Observer
 	idx     int
 	target  string            // what it subscribes to
@@ -52,7 +70,7 @@ type obsState struct {
 	c       *client.CacheClient
 	cancel  context.CancelFunc
 
-	started, first, synced, done, pausing, ended bool
+	started, dialed, first, synced, done, pausing, ended bool
 	startedAt, pauseEnd                          time.Time
 	err                                          error
 	seen                                         map[string]bool
@@ -67,6 +85,8 @@ func (o *obsState) reached(event string, n int) bool {
 	switch event {
 	case "start":
 		return o.started
+	case "dialed":
+		return o.dialed
 	case "first":
 		return o.first
 	case "sync":
@@ -166,10 +186,11 @@ func (o *obsState) run(h *hub, addr string, clock *play) {
 		h.change(func() { o.ended = true })
 		return
 	}
-	typ := gclient.Type
+	typ := plainType
 	if o.spec.Slow {
 		typ = slowType
 	}
+	ctx = context.WithValue(ctx, obsKey{}, o)
 	q := client.Query{Addrs: []string{addr}, Target: o.target, Queries: []client.Path{{"*"}}, Type: client.Stream, Timeout: 15 * time.Second,
 		TLS:                 &tls.Config{InsecureSkipVerify: true},
 		NotificationHandler: func(n client.Notification) error { return o.handle(h, clock, n) }}
@@ -196,7 +217,7 @@ func newObservers(h *hub, sc *Scenario, id string) *flowRun {
 		}
 	}
 	for i, spec := range sc.Observers {
-		o := &obsState{spec: spec, idx: i, target: "*", want: map[string]string{}, scope: map[string]bool{}, seen: map[string]bool{}, atomics: atomics, c: client.New()}
+		o := &obsState{h: h, spec: spec, idx: i, target: "*", want: map[string]string{}, scope: map[string]bool{}, seen: map[string]bool{}, atomics: atomics, c: client.New()}
 		if spec.Scope >= 0 {
 			o.target = sc.Targets[spec.Scope%len(sc.Targets)].Name
 			o.want[o.target], o.scope[o.target] = id, true
